@@ -394,7 +394,8 @@ def u_iminuit(root):
                        ("profile", lambda e, st, me_: (e.write_field(st, me_, "__iminuit", mobj), {"parameter_name": VStr("a")})[1])):
         c = Contract(M, name)
         c.requires.append(lambda vw: z3.And(wf(vw, vw.pre), F(vw, vw.pre, "_did_fit").e))
-        c.loops[0] = lambda e, s: z3.And(e.read_field(s, s.locals["self"], "#backend").len == N, z3.Or(e.read_field(s, s.locals["self"], "_par_val").none, e.read_field(s, s.locals["self"], "_par_val").len == N))
+        c.loops[0] = lambda e, s, name=name: z3.And(e.read_field(s, s.locals["self"], "#backend").len == N, z3.Or(e.read_field(s, s.locals["self"], "_par_val").none, e.read_field(s, s.locals["self"], "_par_val").len == N),
+                                                    *([s.locals["_asymm_par_errs"].rows == N, s.locals["_asymm_par_errs"].cols == 2] if name == "_calculate_asymmetric_parameter_errors" and "_asymm_par_errs" in s.locals else []))
 
         def post_q(vw, name=name):
             if vw.flow == "raise":
